@@ -29,7 +29,11 @@ def raw_function(module, name, extra_globals=None):
     import inspect
     src = inspect.getsource(module)
     tree = _a.parse(src)
-    for n in tree.body:
+    body = tree.body
+    if '.' in name:
+        cls, name = name.split('.', 1)
+        body = [m for c in tree.body if isinstance(c, _a.ClassDef) and c.name == cls for m in c.body]
+    for n in body:
         if isinstance(n, (_a.FunctionDef,)) and n.name == name:
             n.decorator_list = []
             ns = dict(module.__dict__)
